@@ -21,7 +21,9 @@ var recRelay = ev.New("C11", "relay-scenarios",
 		"topology {direct out, harness upstream proxy, chained second server}), 1..8 concurrent client sessions driven by the harness through "+
 		"the server protocol, 2..4 target sockets with the SAME port on different loopback IPs plus 1..3 names resolved by an owned resolver "+
 		"with scripted delays, paced and burst traffic, client address changes, garbage/unauthenticated/replayed datagrams (fenced and interleaved), "+
-		"replies from non-target sources. Oracle: tagged payloads (session, seq, intended destination, checksum) judged at every harness-owned socket. "+
+		"replies from non-target sources; (round 6) first datagrams of a socket/session for which no relay session can be set up, then valid traffic from the same socket; "+
+		"2..6 established sessions bursting 20..200 datagrams each at the same time right after failed set-ups (exactly-once); sessions on different local addresses "+
+		"(127.0.0.1/.2/.3, ::1) of a wildcard listener with another client's datagrams between a session's datagram and its replies. Oracle: tagged payloads (session, seq, intended destination, checksum) judged at every harness-owned socket. "+
 		"Non-trivial: >=2 concurrent sessions reaching different target sockets with >=1 destination addressed by name; distinct key = configuration class").
 	Require("name-target", "ss2022-address-change", "fenced-garbage", "topology:peer", "topology:direct", "batch:no", "batch:sendmmsg",
 		"tour:name-to-other-name", "tour:name-to-failing-name:servfail", "tour:name-to-failing-name:nxdomain", "tour:failing-name-now-resolvable",
@@ -30,7 +32,18 @@ var recRelay = ev.New("C11", "relay-scenarios",
 		"relay-switch:ss2022:sendmmsg", "relay-switch:ss2022:no", "relay-switch:nat:sendmmsg", "relay-switch:nat:no",
 		"burst-with-unsendable:sendmmsg", "burst-with-unsendable:no",
 		"backlog-exceeds-relay-batch:sendmmsg", "send-channel-overflow:no", "send-channel-overflow:sendmmsg",
-		"batch>send-channel-capacity/backlog>=capacity")
+		"batch>send-channel-capacity/backlog>=capacity").
+	// round 6: set-ups that fail (router rejects / the route's client cannot create a session / the default client's
+	// upstream is unavailable for a while) followed by valid traffic from the same socket or session; bursts of several
+	// established sessions right after failed set-ups; clients on different local addresses of a wildcard listener
+	Require("setup-fail-then-valid:reject:nat:no", "setup-fail-then-valid:reject:nat:sendmmsg", "setup-fail-then-valid:reject:ss2022:no", "setup-fail-then-valid:reject:ss2022:sendmmsg",
+		"setup-fail-then-valid:badclient:nat:no", "setup-fail-then-valid:badclient:nat:sendmmsg", "setup-fail-then-valid:badclient:ss2022:no", "setup-fail-then-valid:badclient:ss2022:sendmmsg",
+		"setup-fail-then-valid:upstream-down:nat:no", "setup-fail-then-valid:upstream-down:nat:sendmmsg", "setup-fail-then-valid:upstream-down:ss2022:no", "setup-fail-then-valid:upstream-down:ss2022:sendmmsg",
+		"setup-fail-then-valid:badclient:none-nxname", "setup-fail-then-valid:badclient:ss2022-nxname", "setup-fail-then-valid:badclient:socks5-dead", "setup-fail-then-valid:tunnel-server",
+		"crowd-after-failed-setup:nat:no", "crowd-after-failed-setup:nat:sendmmsg", "crowd-after-failed-setup:ss2022:no", "crowd-after-failed-setup:ss2022:sendmmsg",
+		"crowd:clients>=4", "crowd:datagrams-in-flight>=400",
+		"pktinfo-interleave:nat:no", "pktinfo-interleave:nat:sendmmsg", "pktinfo-interleave:ss2022:no", "pktinfo-interleave:ss2022:sendmmsg",
+		"pktinfo-interleave:v4+v6:no", "pktinfo-interleave:v4+v6:sendmmsg", "sessions-on-127.0.0.x-and-::1:no", "sessions-on-127.0.0.x-and-::1:sendmmsg")
 
 func workDir(t interface{ TempDir() string }) string {
 	if d := os.Getenv("VERIF_WORK"); d != "" {
@@ -74,8 +87,10 @@ func checkPlan(t interface {
 		out = runPlan(p, dir)
 		if out.setupErr == nil && out.violation == "" && len(out.liveMiss) > 0 {
 			sig, what := "paced-no-reply", "paced datagrams got no echo"
-			if strings.HasPrefix(first[0], "backlog-datagram-lost") && strings.HasPrefix(out.liveMiss[0], "backlog-datagram-lost") {
-				sig, what = "backlog-datagram-lost", "datagrams that fitted the send channel never reached their destination"
+			for _, lost := range []string{"backlog-datagram-lost", "crowd-datagram-lost"} {
+				if strings.HasPrefix(first[0], lost) && strings.HasPrefix(out.liveMiss[0], lost) {
+					sig, what = lost, "datagrams that fitted the send channel never reached their destination"
+				}
 			}
 			out.violation = fmt.Sprintf("SIG=C11/%s %s in two runs of the scenario; first run: %v; second run: %v", sig, what, first, out.liveMiss)
 		}
@@ -260,9 +275,131 @@ func fixedPlans() []*plan {
 	}
 }
 
-func TestFixedRegressions(t *testing.T) {
+// fixedPlansRound6 pin the round-6 classes (set-ups that fail, crowds after failed set-ups, clients on
+// different local addresses of a wildcard listener) for every relay kind and batch mode.
+func fixedPlansRound6() []*plan {
+	dests := func() []planDest {
+		return []planDest{{Sock: 0}, {Sock: 1}, {Sock: 2}, {Sock: 0, Name: true}, {Sock: 1, Name: true, DelayMs: 3}}
+	}
+	// dests 0..4 as above, 5 = reject (alt port of target 0), 6 = bad client (alt port of target 1)
+	failDests := func() []planDest {
+		return append(dests(), planDest{Sock: 0, AltPort: true, SetupFail: "reject"}, planDest{Sock: 1, AltPort: true, SetupFail: "badclient"})
+	}
+	withFailDests := func(p *plan, bad string) *plan {
+		if p.ServerProto != "direct" {
+			p.Dests, p.RejectDest, p.BadDest, p.BadClient = failDests(), 5, 6, bad
+		}
+		return p
+	}
+	tunnelise := func(p *plan) *plan {
+		if p.ServerProto == "direct" {
+			for i := range p.Sessions {
+				p.Sessions[i].D1, p.Sessions[i].D2 = p.TunnelDest, p.TunnelDest
+				for _, ops := range [][]planOp{p.Sessions[i].A, p.Sessions[i].B} {
+					for j := range ops {
+						ops[j].Dest, ops[j].Alt = p.TunnelDest, p.TunnelDest
+					}
+				}
+			}
+		}
+		return p
+	}
+	// the first datagram of every client socket (ss2022: of the session) cannot get a relay session; valid
+	// traffic follows from the same socket; new sockets (rebind, fresh burst) start the same way
+	setupFailPlan := func(seed uint64, server, batch, client, topo, bad string) *plan {
+		p := &plan{Seed: seed, ServerProto: server, BatchMode: batch, ClientProto: client, Topology: topo, NSock: 3,
+			Sessions: []planSession{
+				{FailFirst: failReject, D1: 0, D2: 3, A: []planOp{{Kind: "paced", Dest: 0, Alt: 3, N: 3, Fill: 10}, {Kind: "rebind"}, {Kind: "paced", Dest: 1, Alt: 1, N: 2}},
+					B: []planOp{{Kind: "paced", Dest: 4, Alt: 0, N: 2, Fill: 200}}},
+				{FailFirst: failBadClient, D1: 2, D2: 2, A: []planOp{{Kind: "paced", Dest: 2, Alt: 2, N: 2}}, B: []planOp{{Kind: "rebind"}, {Kind: "paced", Dest: 2, Alt: 4, N: 2}}},
+				{FailFirst: failBadClient, GarbageFirst: 1, D1: 1, D2: 3, A: []planOp{{Kind: "paced", Dest: 1, Alt: 3, N: 2}, {Kind: "burst", Dest: 1, Alt: 3, N: 12}}, B: []planOp{{Kind: "paced", Dest: 3, Alt: 1, N: 2}}},
+				{FailFirst: failReject, D1: 4, D2: 0, A: []planOp{{Kind: "burst", Dest: 4, Alt: 0, N: 8}, {Kind: "paced", Dest: 4, Alt: 0, N: 2}}},
+				{D1: 1, D2: 1, A: []planOp{{Kind: "paced", Dest: 1, Alt: 1, N: 2}}},
+			}}
+		return withFailDests(p, bad)
+	}
+	// the default client's upstream is unavailable while the first datagrams of some sessions arrive
+	upstreamDownPlan := func(seed uint64, server, batch, client, upFail string) *plan {
+		p := &plan{Seed: seed, ServerProto: server, BatchMode: batch, ClientProto: client, Topology: "peer", UpName: true, UpFail: upFail, NSock: 3, Dests: dests(), TunnelDest: 3,
+			Sessions: []planSession{
+				{FailFirst: failUpstreamDown, D1: 0, D2: 3, A: []planOp{{Kind: "paced", Dest: 0, Alt: 3, N: 3, Fill: 10}}, B: []planOp{{Kind: "paced", Dest: 4, Alt: 0, N: 2, Fill: 200}}},
+				{FailFirst: failUpstreamDown, D1: 2, D2: 2, A: []planOp{{Kind: "paced", Dest: 2, Alt: 2, N: 2}, {Kind: "burst", Dest: 2, Alt: 2, N: 10}}, B: []planOp{{Kind: "paced", Dest: 2, Alt: 4, N: 2}}},
+				{D1: 1, D2: 1, A: []planOp{{Kind: "paced", Dest: 1, Alt: 1, N: 2}}},
+			},
+			Crowd: &planCrowd{Clients: 3, N: []int{40, 64, 20}, Fails: 2, FailKind: failUpstreamDown, Fill: 100}}
+		return tunnelise(p)
+	}
+	// failed set-ups, then six established sessions burst together
+	crowdPlan := func(seed uint64, server, batch, client, topo string, kind int, bad, wildcard string, capacity int) *plan {
+		p := &plan{Seed: seed, ServerProto: server, BatchMode: batch, ClientProto: client, Topology: topo, NSock: 3, Dests: dests(), TunnelDest: 1, Wildcard: wildcard, SendChanCap: capacity,
+			Crowd: &planCrowd{Clients: 6, N: []int{200, 150, 100, 65, 64, 33}, Fails: 3, FailKind: kind, Fill: 20, GapMs: int(seed % 2)}}
+		for i := 0; i < 6; i++ {
+			d1, d2 := i%3, (i+1)%3
+			if i == 4 {
+				d1, d2 = 3, 4 // two names
+			}
+			p.Sessions = append(p.Sessions, planSession{Home: i, D1: d1, D2: d2, A: []planOp{{Kind: "paced", Dest: d1, Alt: d2, N: 2, Fill: 30 * i}}, B: []planOp{{Kind: "paced", Dest: d2, Alt: d1, N: 1}}})
+		}
+		if topo == "peer" {
+			p.UpName, p.UpFail = true, "nxdomain"
+		}
+		return tunnelise(withFailDests(p, bad))
+	}
+	// clients on different local addresses of a wildcard listener; another client's datagram between a
+	// session's datagram and further replies for that session
+	interleavePlan := func(seed uint64, server, batch, wildcard string) *plan {
+		p := &plan{Seed: seed, ServerProto: server, BatchMode: batch, ClientProto: "direct", Topology: "direct", NSock: 3, Dests: dests(), Wildcard: wildcard, TunnelDest: 1,
+			Sessions: []planSession{
+				{Home: 0, D1: 0, D2: 0, A: []planOp{{Kind: "paced", Dest: 0, Alt: 0, N: 2}, {Kind: "interleave", Dest: 0, Alt: 0, N: 16, Fill: 30}, {Kind: "burst", Dest: 0, Alt: 1, N: 16}},
+					B: []planOp{{Kind: "interleave", Dest: 0, Alt: 0, N: 8, Fill: 500}, {Kind: "relayswitch", Dest: 0, N: 12}, {Kind: "interleave", Dest: 0, Alt: 0, N: 6}}},
+				{Home: 3, D1: 2, D2: 2, A: []planOp{{Kind: "paced", Dest: 2, Alt: 2, N: 1}, {Kind: "interleave", Dest: 2, Alt: 2, N: 20}, {Kind: "burst", Dest: 2, Alt: 2, N: 16}}, B: []planOp{{Kind: "paced", Dest: 2, Alt: 2, N: 2}}},
+				{Home: 1, D1: 1, D2: 3, A: []planOp{{Kind: "paced", Dest: 1, Alt: 3, N: 2}, {Kind: "burst", Dest: 1, Alt: 3, N: 16}}, B: []planOp{{Kind: "interleave", Dest: 1, Alt: 1, N: 10}}},
+			}}
+		return tunnelise(p)
+	}
+	ss := "2022-blake3-aes-128-gcm"
+	ss256 := "2022-blake3-aes-256-gcm"
+	return []*plan{
+		setupFailPlan(61, "socks5", "no", "direct", "direct", "none-nxname"),
+		setupFailPlan(62, "none", "sendmmsg", "direct", "direct", "socks5-dead"),
+		setupFailPlan(63, ss, "no", "direct", "direct", "ss2022-nxname"),
+		setupFailPlan(64, ss256, "sendmmsg", "none", "peer", "socks5-dead"),
+		setupFailPlan(65, "socks5", "sendmmsg", "none", "chain", "ss2022-nxname"),
+		setupFailPlan(66, "none", "no", "socks5", "peer", "none-nxname"),
+		upstreamDownPlan(71, "direct", "no", "none", "nxdomain"),
+		upstreamDownPlan(72, "direct", "sendmmsg", "socks5", "assoc-failure"),
+		upstreamDownPlan(73, "socks5", "sendmmsg", ss, "servfail"),
+		upstreamDownPlan(74, "none", "no", "socks5", "nxdomain"),
+		upstreamDownPlan(75, ss, "no", "none", "servfail"),
+		upstreamDownPlan(76, ss, "sendmmsg", "socks5", "assoc-failure"),
+		crowdPlan(81, "socks5", "no", "direct", "direct", failReject, "none-nxname", "[::]", 0),
+		crowdPlan(82, "none", "sendmmsg", "direct", "direct", failBadClient, "socks5-dead", "0.0.0.0", 0),
+		crowdPlan(83, ss, "no", "direct", "direct", failBadClient, "ss2022-nxname", "", 64),
+		crowdPlan(84, ss, "sendmmsg", "direct", "direct", failReject, "none-nxname", "[::]", 0),
+		crowdPlan(85, "direct", "sendmmsg", "none", "peer", failUpstreamDown, "", "[::]", 0),
+		crowdPlan(86, "direct", "no", "socks5", "peer", failUpstreamDown, "", "", 64),
+		crowdPlan(87, "socks5", "sendmmsg", "none", "chain", failBadClient, "none-nxname", "", 0),
+		interleavePlan(91, ss, "sendmmsg", "[::]"),
+		interleavePlan(92, ss, "no", "[::]"),
+		interleavePlan(93, "socks5", "sendmmsg", "[::]"),
+		interleavePlan(94, "none", "no", "[::]"),
+		interleavePlan(95, "direct", "sendmmsg", "0.0.0.0"),
+		interleavePlan(96, "socks5", "no", "0.0.0.0"),
+	}
+}
+
+func TestFixedRegressions(t *testing.T) { runFixed(t, fixedPlans()) }
+
+// TestFixedRound6 runs the round-6 plans (a job of the race stage as well).
+func TestFixedRound6(t *testing.T) { runFixed(t, fixedPlansRound6()) }
+
+func runFixed(t *testing.T, plans []*plan) {
 	dir := workDir(t)
-	for i, p := range fixedPlans() {
+	only := os.Getenv("VERIF_C11_FIXED") // development: comma separated plan seeds
+	for i, p := range plans {
+		if only != "" && !strings.Contains(","+only+",", fmt.Sprintf(",%d,", p.Seed)) {
+			continue
+		}
 		before := t.Failed()
 		t0 := time.Now()
 		checkPlan(t, p, dir)
